@@ -114,10 +114,12 @@ theorem edit_constant_copy_made_inside_is_constant (s : St) (i : IId) (x : Inst)
 /-- **C14 (constant).**  No statement other than an `edit_constant` block — instance assignment of a
 new or of the identical object or of an asynchronous reference, `update`, a class-level assignment on the declaring class or on a
 subclass, a constructor call, a flag edit, `obj.param[n]` — changes the object an existing instance
-holds under a parameter whose governing Parameter object is constant. -/
+holds under a parameter whose governing Parameter object is constant.  (The library's own renaming
+`_set_name` / `_generate_name`, run under `as_uninitialized`, rewrites `name` and nothing else.) -/
 theorem constant_object_changes_only_inside_edit_constant (s : St) (op : Op) (hwf : WF s)
     (hop : op.isBlock = false) (j : IId) (m : Name) (hj : j < s.insts.length)
-    (hc : isConst (govFlags s j m) = true) :
+    (hc : isConst (govFlags s j m) = true)
+    (hren : op.renames.isSome = true → m ≠ "name") :
     stored (step s op).1 j m = stored s j m := by
   cases op with
   | newInst c kw =>
@@ -171,6 +173,13 @@ theorem constant_object_changes_only_inside_edit_constant (s : St) (op : Op) (hw
     · rfl
     · rename_i s1 ip hg
       exact (getParamCore_gov hwf hg).2.2.1 j m
+  | setName i v =>
+    simp only [step]
+    exact (rename_gov hwf i v (renameCore s i v).1.nextObj).2.2 j m (hren rfl)
+  | genName i =>
+    obtain ⟨k, hk⟩ := genName_state s i
+    rw [hk]; exact (rename_gov hwf i _ k).2.2 j m (hren rfl)
+  | failingEntry i n => simp [Op.isBlock] at hop
   | raise => rfl
   | block i body => simp [Op.isBlock] at hop
 
@@ -204,12 +213,13 @@ theorem constructor_references_constants (s : St) (c : CId) (kw : List (Name × 
 
 /-- **C14 (forbidden attempt).**  After construction, assigning to a parameter whose governing
 Parameter object is read-only, or is constant while the object assigned is not the identical
-object the guard sees, raises TypeError, and nothing changes: no instance value, no class
-dictionary, no existing Parameter object (at most the per-instance copy is created). -/
+object the guard sees, raises TypeError (for a value the Parameter's validation accepts — validation
+comes first, see `invalid_value_raises_ValueError`), and nothing changes: no instance value, no
+class dictionary, no existing Parameter object (at most the per-instance copy is created). -/
 theorem forbidden_attempt_raises_TypeError_and_keeps_value (s : St) (hwf : WF s) (i : IId) (x : Inst)
     (n : Name) (v : Obj) (p : PId) (o : CId) (gp : PId) (q : Param)
     (hx : s.insts[i]? = some x) (hd : descriptor s x.cls n = some (p, o))
-    (hg : governing s i n = some gp) (hq : s.heap[gp]? = some q)
+    (hg : governing s i n = some gp) (hq : s.heap[gp]? = some q) (hval : rejects s q v = false)
     (hforbidden : q.readonly = true ∨ (q.constant = true ∧ v ≠ guardOld x n q)) :
     (step s (.instSet i n v)).2 = .typeError ∧
     (∀ j m, stored (step s (.instSet i n v)).1 j m = stored s j m) ∧
@@ -223,7 +233,7 @@ theorem forbidden_attempt_raises_TypeError_and_keeps_value (s : St) (hwf : WF s)
     simp only [ha, Option.some.injEq] at hg
     subst hg
     simp only [instantiated, ha]
-    rw [guardedStore_forbidden hq hforbidden]
+    rw [guardedStore_forbidden hq hval hforbidden]
     exact ⟨rfl, fun _ _ => rfl, rfl, fun _ _ h => h⟩
   | none =>
     simp only [ha, hd, Option.map_some, Option.some.injEq] at hg
@@ -233,7 +243,7 @@ theorem forbidden_attempt_raises_TypeError_and_keeps_value (s : St) (hwf : WF s)
         { x with iparams := aset x.iparams n s.heap.length }).heap[s.heap.length]? = some q :=
       List.getElem?_concat_length
     have hold : guardOld { x with iparams := aset x.iparams n s.heap.length } n q = guardOld x n q := rfl
-    rw [guardedStore_forbidden hq1 (by rw [hold]; exact hforbidden)]
+    rw [guardedStore_forbidden hq1 (by exact hval) (by rw [hold]; exact hforbidden)]
     have hin : instantiated s i x n p = .ok (setInst { s with heap := s.heap ++ [q] } i
         { x with iparams := aset x.iparams n s.heap.length },
         { x with iparams := aset x.iparams n s.heap.length }, s.heap.length) := by
@@ -242,10 +252,23 @@ theorem forbidden_attempt_raises_TypeError_and_keeps_value (s : St) (hwf : WF s)
 
 /-- re-assigning the identical object to a constant parameter is accepted and changes nothing -/
 theorem identical_object_is_accepted (s : St) (i : IId) (x : Inst) (n : Name) (ip : PId) (q : Param)
-    (hq : s.heap[ip]? = some q) (hc : q.constant = true) (hr : q.readonly = false) :
+    (hq : s.heap[ip]? = some q) (hc : q.constant = true) (hr : q.readonly = false)
+    (hval : rejects s q (guardOld x n q) = false) :
     guardedStore s i x n ip (guardOld x n q) = (s, .ok) := by
   unfold guardedStore
-  simp [hq, hc, hr]
+  simp [hq, hc, hr, hval]
+
+/-- **C14 (validation comes before the guard).**  A value the governing Parameter's validation rejects
+(a non-string for `name`) raises ValueError — not TypeError — whatever the flags, and nothing changes;
+likewise `obj.param._set_name(v)` with such a value: the object is as before, and still locked. -/
+theorem invalid_value_raises_ValueError (s : St) (i : IId) (x : Inst) (n : Name) (ip : PId) (q : Param) (v : Obj)
+    (hq : s.heap[ip]? = some q) (hval : rejects s q v = true) :
+    guardedStore s i x n ip v = (s, .valueError) := guardedStore_invalid hq hval
+
+theorem invalid_rename_changes_nothing (s : St) (i : IId) (x : Inst) (gp : PId) (q : Param) (v : Obj)
+    (hx : s.insts[i]? = some x) (hg : pobjOf s x "name" = some gp) (hq : s.heap[gp]? = some q)
+    (hval : rejects s q v = true) : step s (.setName i v) = (s, .valueError) := by
+  simp only [step, renameCore, hx, hg, hq, hval, if_true]
 
 /-! ## Read-only -/
 
@@ -262,20 +285,26 @@ theorem readonly_never_assignable (s : St) (ops : List Op) (p : PId) (q : Param)
 
 /-- **C14 (read-only, class level).**  A class-level assignment to a parameter whose Parameter object
 is read-only raises TypeError — on the declaring class and on a subclass (where the copy-on-write
-copy is removed again) — and nothing at all changes. -/
+copy is removed again), or ValueError when the value is invalid as well — and nothing at all changes. -/
 theorem readonly_class_assignment (s : St) (c : CId) (n : Name) (v : Obj) (p : PId) (o : CId)
     (q : Param) (k : Cls) (hd : descriptor s c n = some (p, o)) (hq : s.heap[p]? = some q)
     (hk : s.classes[c]? = some k) (hr : q.readonly = true) :
-    step s (.clsSet c n v) = (s, .typeError) := by
+    step s (.clsSet c n v) = (s, .typeError) ∨ step s (.clsSet c n v) = (s, .valueError) := by
   simp only [step, hd, hq, hk, hr, if_true]
+  split
+  · exact Or.inr rfl
+  · exact Or.inl rfl
 
-/-- a constructor keyword naming a read-only parameter is refused: TypeError, no instance is created -/
+/-- a constructor keyword naming a read-only parameter is refused: TypeError (ValueError when an earlier
+keyword is invalid), no instance is created -/
 theorem readonly_keyword_refused (s : St) (hwf : WF s) (c : CId) (kw : List (Name × Obj))
     (h : ∃ nv ∈ kw, ∃ p o q, descriptor s c nv.1 = some (p, o) ∧ s.heap[p]? = some q ∧ q.readonly = true)
     (k : Cls) (hk : s.classes[c]? = some k) :
-    step s (.newInst c kw) = (s, .typeError) := by
+    step s (.newInst c kw) = (s, .typeError) ∨ step s (.newInst c kw) = (s, .valueError) := by
   simp only [step, hk]
-  rw [applyKw_readonly hwf c kw _ h]
+  rcases applyKw_readonly hwf c kw _ h with e | e <;> rw [e]
+  · exact Or.inl rfl
+  · exact Or.inr rfl
 
 /-! ## `name` -/
 
@@ -283,7 +312,8 @@ theorem readonly_keyword_refused (s : St) (hwf : WF s) (c : CId) (kw : List (Nam
 is constant and not read-only. -/
 theorem declared_class_name_is_constant (npool : Nat) (s : St) (d : List CId × List (Name × Bool × Bool × Obj × Bool)) :
     ∃ k p, (declare npool s d).classes[s.classes.length]? = some k ∧ aget k.dict "name" = some p ∧
-      (declare npool s d).heap[p]? = some { constant := true, readonly := false, default := npool + s.classes.length } := by
+      (declare npool s d).heap[p]? = some { constant := true, readonly := false, default := npool + s.classes.length,
+                                            strOnly := true } := by
   unfold declare
   simp only
   refine ⟨_, _, List.getElem?_concat_length, aget_aset_self _ _ _, ?_⟩
@@ -318,9 +348,9 @@ theorem name_is_constant (s : St) (c : CId) (kw : List (Name × Obj)) (ro : Bool
 theorem name_cannot_be_rebound (s : St) (hwf : WF s) (i : IId) (x : Inst) (v : Obj) (p : PId) (o : CId)
     (gp : PId) (q : Param) (hx : s.insts[i]? = some x) (hd : descriptor s x.cls "name" = some (p, o))
     (hg : governing s i "name" = some gp) (hq : s.heap[gp]? = some q) (hc : q.constant = true)
-    (hv : v ≠ guardOld x "name" q) :
+    (hval : rejects s q v = false) (hv : v ≠ guardOld x "name" q) :
     (step s (.instSet i "name" v)).2 = .typeError :=
-  (forbidden_attempt_raises_TypeError_and_keeps_value s hwf i x "name" v p o gp q hx hd hg hq
+  (forbidden_attempt_raises_TypeError_and_keeps_value s hwf i x "name" v p o gp q hx hd hg hq hval
     (Or.inr ⟨hc, hv⟩)).1
 
 /-! ## The full statement about protection, and its refutation -/
@@ -439,6 +469,15 @@ theorem protection_survives_step (s : St) (hwf : WF s) (hh : Hier s) (op : Op)
     · rfl
     · rename_i s1 ip hg
       exact (getParamCore_gov hwf hg).2.1 j m
+  | setName i v =>
+    refine ⟨fun j m _ => ?_, hcls (by intro _ _ _ h; cases h)⟩
+    simp only [step]
+    exact (rename_gov hwf i v (renameCore s i v).1.nextObj).2.1 j m
+  | genName i =>
+    refine ⟨fun j m _ => ?_, hcls (by intro _ _ _ h; cases h)⟩
+    obtain ⟨k, hk⟩ := genName_state s i
+    rw [hk]; exact (rename_gov hwf i _ k).2.1 j m
+  | failingEntry i n => simp [Op.isBlock] at hb
   | raise => exact ⟨fun _ _ _ => rfl, hh⟩
   | block i body => simp [Op.isBlock] at hb
 
@@ -501,6 +540,10 @@ example :
                                                { constant := true, readonly := false, default := 1 }] }
     (step s (.instSetAsync 0 "c" 5)).2 = .typeError ∧ held (step s (.instSetAsync 0 "c" 5)).1 0 "c" = some 0 ∧
     held (step s (.block 0 [.instSetAsync 0 "c" 5])).1 0 "c" = some 5 := by decide
+/-- the library's renaming of a constructed object leaves it locked -/
+example : (step (step witnessState (.genName 0)).1 (.instSet 0 "c" 5)).2 = .typeError ∧
+    held (step witnessState (.genName 0)).1 0 "name" = some 4 ∧
+    (step (step witnessState (.setName 0 9)).1 (.instSet 0 "name" 5)).2 = .typeError := by decide
 /-- the initial state built by `declare` -/
 example : clsFlags (initState 4 [([0], [("c", true, false, 0, false), ("r", false, true, 2, false)]), ([1, 0], [])]) 1 "r"
     = some (true, true) := by decide
